@@ -2,7 +2,7 @@
 \* (import c.C) exist, and every list of 1..2 moves out of {a.C->t.C, a.D->t.D, b.E->t.E, c.C->s.deep.C}
 SPECIFICATION Spec
 CONSTANTS
-  Histories <- HistoriesMulti
+  Pool = "multi"
   NameRule = "file"
   CopyNode = TRUE
   KeepCR = TRUE
